@@ -73,7 +73,7 @@ REGEX_POOL = ["a.*", ".", "[ab]+", "c\\d", "zz", ".*b", "a|b|ca", "..", ""]
 STR_VOCAB = ["a", "b", "ab", "ba", "c1", "c2", "ca", "d", "B", "aa", "e", "f0"]
 NGRAM_ENTRIES = ("ngram2", "ngramcooc", "ngramcooc_fit")       # vocabularies with a second (n-gram) stage
 ESTIMATOR_ENTRIES = ("cooc", "ngram1", "ngram2", "skipgram", "ngramcooc", "ngramcooc_fit")
-GIVEN_DICT_ENTRIES = ("preprocess", "cooc", "tree", "skipgram")
+GIVEN_DICT_ENTRIES = ("preprocess", "cooc", "tree", "skipgram", "timed", "multi")
 DOC_BOUNDS = ("min_dococc", "max_dococc", "min_docfreq", "max_docfreq")
 
 
@@ -323,7 +323,13 @@ def check_error(case, sp, got):
         return bad
     ev = expected_vocab(sp)
     if ev is None:
-        return []                        # the token stage is not determined by the statement: correspondence only
+        # the token stage is not determined by the statement (a frequency too close to a bound, or a reduction to
+        # max_unique_tokens): only the exceptions the second stage can legitimately raise pass, and the model
+        # correspondence decides
+        cfg = case["cfg"]
+        ok = (e == "ZeroDivisionError" and (cfg["min_occ"] is not None or cfg["max_occ"] is not None)) or \
+            (e == "AssertionError" and both_given(cfg)) or (e == "ValueError" and entry != "ngram2")
+        return [] if ok else bad
     index = {t: i for i, t in enumerate(sorted(ev))}
     if case.get("mask") is not None:
         index[case["mask"]] = len(index)
